@@ -242,10 +242,11 @@ pub fn name_case_oracle(rec: &mut Rec, rng: &mut Rng) {
     let val = *rng.pick(gen::values_for(i));
     let run = |n: &str, v: &str| -> Result<String, String> {
         let mut h = Headers::default();
-        match h.parse_header_line(format!("{}:{}", n, v).as_bytes()) {
-            Ok(()) => Ok(show_headers(&h)),
-            Err(e) => Err(show_req_err(&e).split(|c| c == '(').take(2).collect::<Vec<_>>().join("(")
+        match catch_unwind(AssertUnwindSafe(|| h.parse_header_line(format!("{}:{}", n, v).as_bytes()))) {
+            Ok(Ok(())) => Ok(show_headers(&h)),
+            Ok(Err(e)) => Err(show_req_err(&e).split(|c| c == '(').take(2).collect::<Vec<_>>().join("(")
                 .split(',').next().unwrap_or("").to_string()),
+            Err(_) => Err("PANIC".to_string()),
         }
     };
     let base = run(name, val);
